@@ -118,6 +118,35 @@ RoutingKey(values, idx) ==
                              IN G(i + 1, acc \o Len16BE(Len(e)) \o e \o <<0>>)
        IN G(1, <<>>)
 
+\* ---- a statement object that is used more than once
+\* A Query is bound (Bind replaces ALL bound values), asked for its routing key, re-bound, asked again;
+\* an explicit routing key (Query.RoutingKey) overrides the computed one until it is cleared.  The routing
+\* key asked for is always that of the values bound AT THAT MOMENT.  steps: sequence of
+\*   [op |-> "bind", vals |-> values] | [op |-> "route", b |-> bytes] | [op |-> "clear"] | [op |-> "get"]
+\* (other fields ignored); result: the key required at each "get", in order.  (What an explicit key
+\* becomes when the query is re-bound is not specified: scripts clear it first.)
+QuerySeqExpected(steps, idx) ==
+  LET RECURSIVE G(_, _, _, _, _)
+      G(i, vals, ovr, has, acc) ==
+        IF i > Len(steps) THEN acc
+        ELSE LET st == steps[i] IN
+             CASE st.op = "bind" -> G(i + 1, st.vals, ovr, has, acc)
+               [] st.op = "route" -> G(i + 1, vals, st.b, TRUE, acc)
+               [] st.op = "clear" -> G(i + 1, vals, <<>>, FALSE, acc)
+               [] st.op = "get" -> G(i + 1, vals, ovr, has, Append(acc, IF has THEN ovr ELSE RoutingKey(vals, idx)))
+  IN G(1, <<>>, <<>>, FALSE, <<>>)
+\* A Batch is routed by its FIRST statement: [op |-> "add", vals |-> values, ix |-> key positions of that
+\* statement] appends a statement; a batch without statements has no routing key (empty).
+BatchSeqExpected(steps) ==
+  LET RECURSIVE G(_, _, _, _)
+      G(i, first, has, acc) ==
+        IF i > Len(steps) THEN acc
+        ELSE LET st == steps[i] IN
+             CASE st.op = "add" -> IF has THEN G(i + 1, first, has, acc) ELSE G(i + 1, st, TRUE, acc)
+               [] st.op = "get" -> G(i + 1, first, has, Append(acc, IF has THEN RoutingKey(first.vals, first.ix) ELSE <<>>))
+  IN G(1, [op |-> "none"], FALSE, <<>>)
+SeqExpected(obj, steps, idx) == IF obj = "batch" THEN BatchSeqExpected(steps) ELSE QuerySeqExpected(steps, idx)
+
 \* ---------------------------------------------------------------- self-test
 \* published vectors: MurmurHash series generated by the DataStax Java implementation
 \* (internal/murmur/murmur_test.go), other drivers' examples, the Cassandra sign example.
@@ -160,4 +189,12 @@ ASSUME RoutingKey(<<[t |-> "blob", n |-> 0, b |-> <<1, 2>>]>>, <<1>>) = <<1, 2>>
 \* Cassandra CompositeType example: ('ab', 1:int) -> 0002 6162 00 0004 00000001 00
 ASSUME RoutingKey(<<[t |-> "int", n |-> 1, b |-> <<>>], [t |-> "text", n |-> 0, b |-> <<97, 98>>]>>, <<2, 1>>) =
        <<0, 2, 97, 98, 0, 0, 4, 0, 0, 0, 1, 0>>
+ASSUME LET A == <<[t |-> "blob", n |-> 0, b |-> <<1>>]>>
+           B == <<[t |-> "blob", n |-> 0, b |-> <<2, 3>>]>>
+           st(op, v, x) == [op |-> op, vals |-> v, b |-> x, ix |-> <<1>>] IN
+       /\ QuerySeqExpected(<<st("bind", A, <<>>), st("get", <<>>, <<>>), st("bind", B, <<>>), st("get", <<>>, <<>>),
+                             st("route", <<>>, <<9>>), st("get", <<>>, <<>>), st("clear", <<>>, <<>>), st("get", <<>>, <<>>)>>, <<1>>)
+            = << <<1>>, <<2, 3>>, <<9>>, <<2, 3>> >>
+       /\ BatchSeqExpected(<<st("get", <<>>, <<>>), st("add", A, <<>>), st("get", <<>>, <<>>), st("add", B, <<>>), st("get", <<>>, <<>>)>>)
+            = << <<>>, <<1>>, <<1>> >>
 =============================================================================
